@@ -39,6 +39,7 @@ CycleFails(i, r) ==
     \o Chk(Want, i, "C04_Converged", r.applied.err = "" => C04_Converged(r.applied.alpha2, r.applied.beta2, m, pl))
     \o Chk(Want, i, "C06_Disjoint", C06_Disjoint(pl, Len(r.plan.alpha), Len(r.plan.beta), Len(r.plan.conf)))
     \o Chk(Want, i, "C06_ConflictWF", C06_ConflictWF(x, y, pl))
+    \o Chk(Want, i, "C06_ConflictListsWF", C06_ConflictListsWF(r.plan.conf))
 
 IsOutcome(o, c) == IsSubTree(o, c.old) \/ IsSubTree(o, c.new)
 OutcomeFails(i, r) ==
